@@ -551,6 +551,32 @@ impl Res for Verdict {
     }
 }
 
+/// alignment 16, the stack alignment the ABI promises at every call: kept in memory and copied by value, so
+/// that the compiler may use aligned 16-byte moves on stack slots
+#[repr(align(16))]
+struct A16 {
+    a: [u64; 14],
+}
+impl Res for A16 {
+    fn make(t: u64) -> Self {
+        let mut a = [0u64; 14];
+        for (k, x) in a.iter_mut().enumerate() {
+            let mut w = [0u8; 8];
+            for (j, y) in w.iter_mut().enumerate() {
+                *y = sbyte(t, 8 * k + j);
+            }
+            *x = u64::from_le_bytes(w);
+        }
+        A16 { a }
+    }
+    fn feed(&self, h: &mut Fnv) -> u32 {
+        for x in self.a.iter() {
+            h.bytes(&x.to_le_bytes());
+        }
+        112
+    }
+}
+
 enum H {
     T0(JoinHandle<()>),
     T1(JoinHandle<u8>),
@@ -565,6 +591,7 @@ enum H {
     T10(JoinHandle<char>),
     T11(JoinHandle<Option<u8>>),
     T12(JoinHandle<Verdict>),
+    T13(JoinHandle<A16>),
 }
 
 // ------------------------------------------------------------------------------------------------
@@ -691,6 +718,9 @@ fn body<T: Res>(c: Clo) -> T {
     if c.behave == 2 {
         spurious_wake(c.i, c.cdk, c.cda);
     } else {
+        if c.behave == 3 || c.behave == 4 {
+            nested(c.i, c.behave, c.tag);
+        }
         delay(c.cdk, c.cda);
     }
     black_box(&can);
@@ -702,6 +732,46 @@ fn body<T: Res>(c: Clo) -> T {
     let v = T::make(c.tag);
     DONE[c.i].store(1, SeqCst);
     v
+}
+
+/// behave 3 / 4: this (spawned) thread itself spawns a thread and joins it (3) or drops its handle once it has
+/// finished (4) - the handle side of another thread's life runs on a spawned thread. Result in WOKE[i]:
+/// 0x11 inner join returned the inner value, 0x12 it returned something else, 0x13 the inner spawn failed,
+/// 0x14 handle dropped after the inner closure had finished, 0x15 the inner closure never reported.
+fn nested(i: usize, behave: u8, tag: u64) {
+    static INNER_DONE: [AtomicU32; MAXN] = [Z32; MAXN];
+    INNER_DONE[i].store(0, SeqCst);
+    let want = tag.wrapping_mul(3) ^ 0x1e57;
+    let r = tiny_std::thread::spawn(move || {
+        INNER_DONE[i].store(1, SeqCst);
+        want
+    });
+    let code = match r {
+        Err(_) => 0x13,
+        Ok(h) => {
+            if behave == 3 {
+                match h.join() {
+                    Some(v) if v == want => 0x11,
+                    _ => 0x12,
+                }
+            } else {
+                let mut polls = 0;
+                while INNER_DONE[i].load(SeqCst) == 0 && polls < 20_000 {
+                    sleep_ns(50_000);
+                    polls += 1;
+                }
+                sleep_ns(300_000);
+                let fin = INNER_DONE[i].load(SeqCst) == 1;
+                drop(h);
+                if fin {
+                    0x14
+                } else {
+                    0x15
+                }
+            }
+        }
+    };
+    WOKE[i].store(code, SeqCst);
 }
 
 static CLOSZ: [AtomicU32; MAXN] = [Z32; MAXN];
@@ -785,6 +855,7 @@ fn spawn_spec(ty: u8, c: Clo) -> Result<H, i32> {
         10 => H::T10(spawn_t(c)?),
         11 => H::T11(spawn_t(c)?),
         12 => H::T12(spawn_t(c)?),
+        13 => H::T13(spawn_t(c)?),
         _ => H::T8(spawn_t(c)?),
     })
 }
@@ -816,6 +887,7 @@ fn join_h(h: H) -> (u8, u64, u32) {
         H::T10(h) => join_t(h),
         H::T11(h) => join_t(h),
         H::T12(h) => join_t(h),
+        H::T13(h) => join_t(h),
     }
 }
 
